@@ -14,6 +14,7 @@ import (
 	"github.com/gordian-engine/gordian/gwatchdog"
 	"github.com/gordian-engine/gordian/internal/gchan"
 	"github.com/gordian-engine/gordian/internal/glog"
+	"github.com/gordian-engine/gordian/internal/verifhook"
 	"github.com/gordian-engine/gordian/tm/tmconsensus"
 	"github.com/gordian-engine/gordian/tm/tmdriver"
 	"github.com/gordian-engine/gordian/tm/tmengine/internal/tmeil"
@@ -145,6 +146,8 @@ func (m *StateMachine) Wait() {
 }
 
 func (m *StateMachine) kernel(ctx context.Context) {
+	defer verifhook.Catch(ctx, "tmstate.kernel")
+
 	defer close(m.kernelDone)
 
 	ctx, task := trace.NewTask(ctx, "StateMachine.kernel")
